@@ -52,6 +52,18 @@ TABLE = [
      "All 511 non-empty subsets of a 3x3 integer-coordinate window x lattice parities x flip x side lengths x offsets, in "
      "both representations: up-sampling (children, count, area, vertices), neighbourhood as geometric sets, index "
      "selection, representation agreement and shape containment on a 7x7 reference lattice.", "4/C20"),
+    ("C11", "explicit-state breadth-first exploration of read/derive histories on real object graphs (state = content hash of the graph)",
+     "Six families of real object graphs (structures; imaging datasets; inversion + mappers + valued mapper for four "
+     "object lists in both formalisms and with the positive solver; calls relying on shared default arguments; seeded "
+     "simulation under a perturbed global RNG) are explored breadth-first over all histories of reads, queries and "
+     "derivations to the stated depth with state de-duplication; on every transition the value read must equal the "
+     "pristine-graph value (and, for derived objects, the value of a fresh object built from the same contents) and "
+     "the fingerprints of all caller-owned inputs and shared defaults must be unchanged.", "4/C11"),
+    ("C15", "explicit-state breadth-first exploration of histories of successive inversions sharing one Preloads object",
+     "For every assignment of the public preload slots (48) x formalism setting x object list x mask, all histories of "
+     "successive inversions (3 read orders x fresh/reused linear objects) sharing the Preloads object and dataset are "
+     "explored to depth 3 (4) with state de-duplication; every output must equal the no-preload reference, preloaded "
+     "arrays must stay byte-identical, and the factory's formalism choice must not change values.", "4/C15"),
 ]
 _ALL = ["C%02d" % i for i in range(1, 21)]
 _PENDING_REASON = ("check under construction in this session: machinery for this property is not yet committed "
